@@ -81,6 +81,8 @@ func NewSqlite(path string, cfg *SqliteConfig) (*Sqlite, error) {
 	connParams.Add("_pragma", "synchronous(NORMAL)")
 	// Enforce foreign key constraints.
 	connParams.Add("_pragma", "foreign_keys(1)")
+	// The mattn/go-sqlite3 driver does not understand _pragma; it has dedicated parameters.
+	connParams.Add("_foreign_keys", "1")
 	// Use shared cache for in-memory databases to allow multiple connections.
 	if c.InMemory {
 		registerMemoryDB(noFile)
